@@ -887,9 +887,11 @@ func (s *Search) differential(spool []string, depth int, deadline, hardEnd time.
 				rs[i].Key, rs[i].Ev, rs[i].WantSig = w.f.Key, w.f.Ev, w.f.Sig
 			}
 			if pinned {
-				rk := w.f.RawKey
+				rk := ""
 				if w.g != nil {
 					rk = w.g.RawParent
+				} else {
+					rk = w.f.RawKey
 				}
 				if ps, err := ParseKey(rk); err == nil {
 					ps.Gen = 1
@@ -991,20 +993,20 @@ func (s *Search) differential(spool []string, depth int, deadline, hardEnd time.
 	}
 
 	info["differential"] = map[string]interface{}{
-		"depth":                           depth,
-		"roots":                           len(roots),
-		"roots_completed":                 rootsDone,
-		"completed":                       done,
-		"raw_states_visited_unpruned":     raw,
-		"cases":                           cases,
-		"evaluations":                     evals,
-		"distinct_canonical_keys_dfs":     len(distinct),
-		"distinct_canonical_keys_bfs":     bfsTotal,
-		"dfs_keys_per_level":              perLevel,
-		"bfs_keys_per_level":              bfsKeys,
-		"keys_seen_by_dfs_not_by_bfs":     gapCount,
-		"verdicts_seen_by_dfs_not_bfs":    verdictGaps,
-		"resolved_by_resampling_bfs_side": resolved,
+		"depth":                              depth,
+		"roots":                              len(roots),
+		"roots_completed":                    rootsDone,
+		"completed":                          done,
+		"raw_states_visited_unpruned":        raw,
+		"cases":                              cases,
+		"evaluations":                        evals,
+		"distinct_canonical_keys_dfs":        len(distinct),
+		"distinct_canonical_keys_bfs":        bfsTotal,
+		"dfs_keys_per_level":                 perLevel,
+		"bfs_keys_per_level":                 bfsKeys,
+		"keys_seen_by_dfs_not_by_bfs":        gapCount,
+		"verdicts_seen_by_dfs_not_bfs":       verdictGaps,
+		"resolved_by_resampling_bfs_side":    resolved,
 		"of_which_needed_the_raw_list_order": pinnedResolved,
 		"unresolved_raw_reproduces_canonical_does_not": unresolved,
 		"rare_not_reproduced_either_way":               rare,
